@@ -14,10 +14,11 @@ Require Import Verif.Proofs.CallerP.
 (* tie for the std-log bridge: NewLogLogger and handlerWriter.Write translated from the source (Gen/Bridge.v), one
    after the other.  A bridge as NewLogLogger builds it, when written to: the record carries the program counter
    getpc(4, skip count of the logger) - 4 = [runtime.Callers, getpc, Write, log.Logger.output, log.Print*] - for EVERY
-   flags word and level at construction time (the caller information is captured even if Lcaller is switched on later) *)
+   flags word, level, gate answer and skip count at construction time (the caller information is captured even if
+   Lcaller is switched on later; the skip count is the one the logger has when it is written to) *)
 Require Verif.Model.GoSem Verif.Model.BridgeRef Verif.Gen.Bridge Verif.Proofs.GenBridgeP.
-Theorem C14_gen_bridge_pc : forall f_level flags deflevel h lvl f_enabled f_skip f_getpc as_aware w_n w_e buf tr,
-  match Bridge.new_log_logger f_level flags deflevel h lvl with
+Theorem C14_gen_bridge_pc : forall f_level enabled_then skip_then flags deflevel h lvl f_enabled f_skip f_getpc as_aware w_n w_e buf tr,
+  match Bridge.new_log_logger f_level enabled_then skip_then flags deflevel h lvl with
   | BridgeRef.mk_bridge (l, v, cap, extra) _ _ =>
       Bridge.bridge_write f_enabled f_skip f_getpc as_aware w_n w_e l v cap extra buf tr =
       if f_enabled h lvl
